@@ -33,6 +33,10 @@ import (
 func ParseQuery(q string) (pq *proto.Query, err error) {
 	p := newParser(q)
 
+	// let the lexer goroutine run to completion, whatever happens below: it blocks on
+	// the unbuffered item channel until every item has been received.
+	defer p.lexer.drain()
+
 	defer p.recover(&err)
 
 	pq, err = p.parse()
@@ -363,6 +367,13 @@ func lex(input string) *lexer {
 func (l *lexer) run() {
 	for l.state = lexText; l.state != nil; {
 		l.state = l.state(l)
+	}
+	close(l.items)
+}
+
+// drain receives whatever the lexer still wants to send, so that its goroutine ends.
+func (l *lexer) drain() {
+	for range l.items {
 	}
 }
 
